@@ -727,6 +727,9 @@ def prepass(text, opaque=None, log=None):
                     amp = j
                 j += 1
             if amp is not None and j < len(toks):
+                if _in_o1(toks[i].start):
+                    i += 1
+                    continue   # the whole statement is replaced by a rule-O1 stub: nothing to normalise (or to refuse) here
                 bc = match_close(toks, j)
                 if bc + 1 < len(toks) and texts[bc + 1] == "else":
                     raise ExtractError("N3: let-chain with else is not supported")
@@ -765,6 +768,9 @@ def prepass(text, opaque=None, log=None):
                     break
                 j += 1
             if amp is not None and j < len(toks):
+                if _in_o1(toks[i].start):
+                    i += 1
+                    continue   # the whole statement is replaced by a rule-O1 stub
                 bc = match_close(toks, j)
                 if bc + 1 < len(toks) and texts[bc + 1] == "else":
                     raise ExtractError("N3b: let-chain with else is not supported")
